@@ -259,6 +259,22 @@ def fields_consistent(stored):
     return None
 
 
+def gen_C06_deep(chk):
+    """trees far taller than any formula a user nests by hand: flat chains of operands and of unary
+    operators (the printed text has one parenthesised group per level)"""
+    rng = chk.rng
+    for n in ([140, 260] if not thorough(chk) else [140, 260, 520]):
+        for op in ("And", "Or", "EU"):
+            t = gen.T("P", "a")
+            for i in range(n):
+                t = ("B", op, gen.T("P", rng.choice(["a", "b"])), t)
+            add_tree(chk, t, "deep-chain")
+        t = gen.T("P", "b")
+        for i in range(n):
+            t = ("U", rng.choice(["AX", "Not", "EF"]), t)
+        add_tree(chk, t, "deep-unary")
+
+
 def judge_C06(chk):
     for cid, case in list(chk.cases.items()):
         i, m = front_answer(chk, cid)
@@ -308,6 +324,26 @@ def gen_C07(chk):
             t = break_scoping(t, rng)
         cid = chk.add_front("PREP", ["0", ",".join(gen.hx(p) for p in props), gen.hx(gen.render(t))],
                             tag="prep", meta={"t": t, "props": props})
+
+
+def gen_nonuniform_support(chk):
+    """graphs whose symbolic context gives the network variables different numbers of spare copies
+    (first or last variable has the fewest): the formula is supported iff its nesting depth does not
+    exceed the smallest number"""
+    rng = chk.rng
+    from .props import worlds as _w
+    ws = _w(chk, quick_names=["N05", "N06", "N09", "N16"], n_random=cnt(chk, 1, 4))
+    for nm, net in ws:
+        props = net_props(net)
+        if len(props) < 2:
+            continue
+        for j in range(cnt(chk, 4, 12)):
+            f = gen.random_formula(rng, rng.randint(2, 6), props, max_vars=2, w_hybrid=0.6)
+            d = gen.quant_depth(f)
+            for k in {max(0, d - 1), d}:
+                if len(props) * (3 + k) > 14:
+                    continue
+                chk.add_eval(net, k, "s" + rng.choice(["N", "M"]), [f], tag="nonuniform", netname=nm)
 
 
 def break_scoping(t, rng):
@@ -379,6 +415,13 @@ def gen_C08(chk):
         props = net_props(net)
         for j in range(cnt(chk, 8, 30)):
             f = gen.random_formula(rng, rng.randint(2, 8), props, max_vars=3, binops=gen.BINOPS)
+            if j % 5 == 0:
+                # right-nested chains of binary temporal operators and of Boolean operators
+                ps = [gen.T("P", rng.choice(props)) for _ in range(4)]
+                o1, o2, o3 = (rng.choice(["EU", "AU", "EW", "AW"]) for _ in range(3))
+                f = ("B", o1, ps[0], ("B", o2, ("U", "Not", ps[1]), ("B", o3, ps[2], ps[3])))
+                if rng.random() < 0.5:
+                    f = ("H", "Bind", "x", None, ("B", "And", f, ("U", "EF", gen.T("V", "x"))))
             k = gen.quant_depth(f)
             group = []
             base = chk.add_eval(net, k, "s", [gen.render(f)], tag="canonical", netname=nm)
@@ -390,6 +433,9 @@ def gen_C08(chk):
                 if v == 3:
                     g = gen.alpha_rename(f, rng, ["xxx", "xx", "x"])
                 s = gen.render_variant(g, rng)
+                if v in (5, 7):
+                    # only the parentheses that precedence and right-associativity require
+                    s = minimal_render(g, rng)
                 cid = chk.add_eval(net, k, "s", [s], tag="variant", netname=nm)
                 chk.cases[cid]["ast"] = f
                 group.append(cid)
@@ -443,13 +489,13 @@ def judge_C08(chk):
 # ------------------------------------------------------------------ C09
 def gen_C09(chk):
     rng = chk.rng
-    props = ["a", "b", "Vv", "3x", "v3", "kV"]
+    props = ["a", "b", "Vv", "3x", "v3", "kV", "\u00e9", "\u03bb\u0436"]
     seen = set()
     trees = []
     for j in range(cnt(chk, 400, 1500)):
         ext = rng.random() < 0.5
-        t = gen.random_formula(rng, rng.randint(2, 12), props, max_vars=4, wilds=(("w", "V3") if ext else ()),
-                               doms=(("d", "e") if ext else ()), binops=gen.BINOPS, w_hybrid=0.45)
+        t = gen.random_formula(rng, rng.randint(2, 12), props, max_vars=4, wilds=(("w", "V3", "\u03bb") if ext else ()),
+                               doms=(("d", "e", "\u00e9") if ext else ()), binops=gen.BINOPS, w_hybrid=0.45)
         t = ref.rename_by_depth(t)
         trees.append(t)
         for s in gen.subtrees(t):
@@ -697,9 +743,9 @@ def runner(gens, judge):
 
 REGISTRY = {
     "C05": runner([gen_C05], judge_C05),
-    "C06": runner([gen_C06], judge_C06),
-    "C07": runner([gen_C07], judge_C07),
+    "C06": runner([gen_C06, gen_C06_deep], judge_C06),
+    "C07": runner([gen_C07, gen_nonuniform_support], lambda c: (judge_C07(c), judge_all(c))),
     "C08": runner([gen_C08], judge_C08),
     "C09": runner([gen_C09], judge_C09),
-    "C14": runner([gen_C14], judge_C14),
+    "C14": runner([gen_C14, gen_nonuniform_support], judge_C14),
 }
